@@ -56,6 +56,21 @@ pub(crate) async fn remember_query_with_data_dir(
         return Err("REMEMBER only supports QUERY commands".into());
     }
 
+    // Sequence results cannot be refreshed incrementally: LIMIT counts sequences (not rows)
+    // and a match may pair an event below the high-water mark with one above it.
+    if matches!(
+        query_command,
+        Command::Query {
+            event_sequence: Some(_),
+            link_field: Some(_),
+            ..
+        }
+    ) {
+        return Err(
+            "REMEMBER does not support sequence queries (FOLLOWED BY / PRECEDED BY)".into(),
+        );
+    }
+
     let mut catalog = MaterializationCatalog::load(data_dir)
         .map_err(|e| format!("Failed to load materialization catalog: {e}"))?;
 
